@@ -601,7 +601,7 @@ def walk_origin(o, fn, depth=0):
         return
     fn(o)
     k = o[0]
-    if k in ("field", "variant", "index", "cast", "discr", "clone", "try", "promoted"):
+    if k in ("field", "variant", "index", "cast", "discr", "clone", "try", "promoted", "payload"):
         walk_origin(o[1], fn, depth + 1)
     elif k == "var" and o[3] is not None:
         walk_origin(o[3], fn, depth + 1)
